@@ -176,6 +176,11 @@ func (c *Cache) Watch(
 			// Don't keep a reference to an informer that never started,
 			// or the next Watch call would skip creating it.
 			delete(c.informerReferences, gvk)
+			// An informer that timed out syncing is already running inside the InformerMap:
+			// shut it down, nobody owns it.
+			if delErr := c.informerMap.Delete(ctx, gvk); delErr != nil {
+				log.Error(delErr, "releasing informer that failed to start", "gvk", gvk.String())
+			}
 			return fmt.Errorf("getting informer from InformerMap: %w", err)
 		}
 
